@@ -185,6 +185,70 @@ impl C01 {
     }
 }
 
+impl C01 {
+    /// the same property through the lax representation: operands carry pending (label-consistent)
+    /// unifications; the composite, once quotiented, must be the gluing of the quotiented operands
+    fn judge_lax(&self, ctx: &mut Ctx, f: &P, g: &P, r: &mut Rng) {
+        let add_pairs = |p: &P, r: &mut Rng| -> PLax<u32, u64> {
+            let mut l = p.to_lax();
+            let n = l.w.len();
+            if n > 0 {
+                for _ in 0..r.small(3) {
+                    let a = r.below(n);
+                    let c: Vec<usize> = (0..n).filter(|&i| l.w[i] == l.w[a]).collect();
+                    l.q.push((a, *r.pick(&c)));
+                }
+            }
+            l
+        };
+        let (lf, lg) = (add_pairs(f, r), add_pairs(g, r));
+        let input = || json!({"f": show_lax(&lf), "g": show_lax(&lg)});
+        if !lg.q.is_empty() && !lf.w.is_empty() {
+            ctx.class("lax_right_operand_with_pending_unifications");
+        }
+        let (fs, gs) = match (lf.strict(), lg.strict()) {
+            (Ok(a), Ok(b)) => (a.0, b.0),
+            _ => return,
+        };
+        let want = fs.compose(&gs);
+        let (xf, xg) = (to_lax(&lf), to_lax(&lg));
+        for api in ["lax::compose", "lax::shr"] {
+            ctx.api(api);
+            let res = if api == "lax::compose" { guard(|| Arrow::compose(&xf, &xg)) } else { guard(|| &xf >> &xg) };
+            let res = match res {
+                Ok(x) => x,
+                Err(p) => {
+                    ctx.evaluations += 1;
+                    ctx.violation(&format!("{}/returns/{}/any", api, p.sig()), json!({"input": input(), "observed": p.json()}));
+                    continue;
+                }
+            };
+            ctx.evaluations += 1;
+            match (&want, res) {
+                (None, None) => {}
+                (Some(m), Some(h)) => {
+                    if let Some(pl) = walk_lax(ctx, api, "lax", &h, &input) {
+                        match pl.strict() {
+                            Ok((got, _)) => {
+                                let ty = got.src_type() == m.src_type() && got.tgt_type() == m.tgt_type();
+                                if ctx.check(ty, &format!("{}/type/value/lax", api), || json!({"input": input(), "observed": show(&got)})) {
+                                    expect_iso(ctx, api, "pushout", "lax", &got, m, &input);
+                                }
+                            }
+                            Err(_) => {
+                                ctx.check(false, &format!("{}/composite-quotientable/value/lax", api), || json!({"input": input(), "observed": show_lax(&pl)}));
+                            }
+                        }
+                    }
+                }
+                (w, h) => {
+                    ctx.violation(&format!("{}/defined-iff-types-match/value/lax", api), json!({"input": input(), "expected_some": w.is_some(), "observed_some": h.is_some()}));
+                }
+            }
+        }
+    }
+}
+
 impl Monitor for C01 {
     fn id(&self) -> &'static str {
         "C01"
@@ -193,7 +257,7 @@ impl Monitor for C01 {
         "cases: fixed hostile corpus (one pair per class named in the quantifier) then seeded random pairs (f,g): \
          composable pairs built over f's target type with boundary nodes shared/repeated, and non-composable pairs \
          (length mismatch, single-label mismatch, unrelated). Each pair is composed through Arrow::compose and `>>`; \
-         oracle = model pushout + isomorphism search with pinned interfaces. non-trivial = types match and the shared \
+         oracle = model pushout + isomorphism search with pinned interfaces. A third of the random pairs is also composed through the lax representation (both operands carrying pending label-consistent unifications; lax compose and >>), the composite quotiented on the model side and compared with the gluing of the quotiented operands. non-trivial = types match and the shared \
          boundary is non-empty, or a hostile-corpus class; distinct = hash of the plain-model pair."
     }
     fn corpus_len(&self) -> u64 {
@@ -219,6 +283,8 @@ impl Monitor for C01 {
             ("class:types_differ", 30),
             ("outcome:Some", 100),
             ("outcome:None", 30),
+            ("api:lax::compose", 200),
+            ("class:lax_right_operand_with_pending_unifications", 50),
         ]
     }
     fn run_case(&self, idx: u64, r: &mut Rng, ctx: &mut Ctx) {
@@ -295,5 +361,8 @@ impl Monitor for C01 {
             return;
         }
         self.judge(ctx, "random", &f, &g);
+        if r.chance(1, 3) && f.w.len() + g.w.len() <= 16 {
+            self.judge_lax(ctx, &f, &g, r);
+        }
     }
 }
